@@ -272,6 +272,40 @@ def post_replay(x, prop, fault):
     return c13_post(x, fault) if prop == "C13" else c14_post(x, fault)
 
 
+def real_process_supplement(rep):
+    """Crash-point enumeration against a real sub-process simulator over real sockets
+    (findings/realproc): the process exits while idle, in setup_done, in step, in get_data.
+    Timing based (wall-clock bound of 8 s per run), exhaustive only in the crash points; it is
+    reported separately and is not part of the exhaustive-schedule claim."""
+    import subprocess
+    import sys
+    script = os.path.join(env.VERIF_DIR, "findings", "realproc", "run.py")
+    out = {}
+    for point in ("idle_after_create", "setup_done", "step", "get_data"):
+        try:
+            r = subprocess.run([sys.executable, script, point], capture_output=True, text=True,
+                               timeout=60, env=dict(os.environ, VERIF_REPO=env.REPO))
+            line = (r.stdout.strip().splitlines() or ["no output"])[-1]
+            ok = r.returncode == 0
+        except subprocess.TimeoutExpired:
+            line, ok = "timeout after 60 s", False
+        out[point] = line
+        if not ok:
+            rep.report(dict(prop="C14", kind="real-process-fault-not-contained", cls=None,
+                            msg=f"real sub-process simulator dying at '{point}': {line}"),
+                       dict(kind="call", module="mc.faults", point=point))
+    return out
+
+
+def replay(doc):
+    import subprocess
+    import sys
+    script = os.path.join(env.VERIF_DIR, "findings", "realproc", "run.py")
+    r = subprocess.run([sys.executable, script, doc["point"]], text=True,
+                       env=dict(os.environ, VERIF_REPO=env.REPO))
+    return 1 if r.returncode else 0
+
+
 def check(prop, tier):
     t0 = time.time()
     jobs = []
@@ -325,8 +359,12 @@ def check(prop, tier):
                                    post=dict(module="mc.faults", func="post_replay",
                                              args=[prop, r["fault"]]),
                                    inject="mc.faults"))
+    realproc = None
+    if prop == "C14" and tier == "thorough":
+        realproc = real_process_supplement(rep)
     rc = rep.finish()
     cov = dict(
+        real_process_supplement=realproc,
         evaluations=tot["execs"], distinct_nontrivial=tot["jobs"],
         rule="one evaluation = one complete execution (fault injected at one request of one "
              "simulator, one reply-delivery schedule); distinct = (topology, simulator, request "
